@@ -66,8 +66,11 @@ class VAMReceptionManagement:
         """
         vam = self.vam_coder.decode(btp_indication.data)
         generation_delta_time = GenerationDeltaTime(msec=vam["vam"]["generationDeltaTime"])
+        # Integer microseconds first: the float product ``seconds * 1000`` can fall just below the
+        # millisecond the clock shows and be truncated to the previous one, which dates a message
+        # received in its own generation millisecond one generationDeltaTime cycle (65 536 ms) early.
         utc_timestamp = generation_delta_time.as_timestamp_in_certain_point(
-            int(TimeService.time()*1000))
+            round(TimeService.time() * 1_000_000) // 1000)
         vam["utc_timestamp"] = utc_timestamp
         if self.vru_basic_service_ldm is not None:
             self.vru_basic_service_ldm.add_provider_data_to_ldm(vam)
